@@ -129,7 +129,7 @@ func ruleTriggerSets(w *World, r *Report) {
 			r.Bad(key, w.FnPos(m), bad)
 		}
 	}
-	r.Expect("extension parsers with a trigger set named by the statement", n, 6)
+	r.Expect("extension parsers with a trigger set named by the statement", n, 3)
 }
 
 // requiresByte: every string matched by re contains c.
